@@ -67,7 +67,9 @@ def _collect_pow(expr: Pow) -> tuple[Expr, Dimension]:
     base_expr, base_dim = collect_expression_and_dimension(expr.base)
 
     expr_ = base_expr**exp_expr
-    dim = base_dim**exp_expr
+    # a dimensionless quantity in the exponent scales the dimension by its numeric value
+    exp_factor = exp_expr.scale_factor if isinstance(exp_expr, SymQuantity) else exp_expr
+    dim = base_dim**exp_factor
 
     return expr_, dim
 
